@@ -41,6 +41,32 @@ def frozen_functions() -> Set[str]:
     return _FUNCS
 
 
+# new functions of the whole package, by bare name: name -> [(node, class node or None, module name)]
+FOREIGN: Dict[str, List[Tuple[ast.AST, Optional[ast.ClassDef], str]]] = {}
+
+
+def set_foreign(trees: Dict[str, ast.Module]):
+    """index the functions of every module that are not in the reference inventory, so that a helper moved to another
+    module (a base class, a utility module) can still be inlined where it is called"""
+    FOREIGN.clear()
+    ff = frozen_functions()
+    if not ff:
+        return
+
+    def go(body, prefix, cls, modname):
+        for s_ in body:
+            if isinstance(s_, (ast.FunctionDef, ast.AsyncFunctionDef)):
+                if f"{prefix}.{s_.name}" not in ff:
+                    FOREIGN.setdefault(s_.name, []).append((s_, cls, modname))
+            elif isinstance(s_, ast.ClassDef):
+                go(s_.body, f"{prefix}.{s_.name}", s_, modname)
+            elif isinstance(s_, (ast.If, ast.Try)):
+                go(getattr(s_, "body", []), prefix, cls, modname)
+
+    for modname, tree in trees.items():
+        go(tree.body, modname, None, modname)
+
+
 # ------------------------------------------------------------------------------------------------ helpers
 
 
@@ -170,6 +196,10 @@ def _bind_params(fn, call: ast.Call, receiver: Optional[ast.expr], skip_first: b
     dparams = [x.arg for x in a.args][len(a.args) - len(defaults):] if defaults else []
     for p, d in zip(dparams, defaults):
         if p not in mp:
+            if isinstance(d, (ast.List, ast.Dict, ast.Set, ast.ListComp, ast.DictComp, ast.SetComp, ast.Call)):
+                # one shared object per definition, not a fresh one per call: substituting the display would change
+                # (and hide) what the helper does to it
+                return None
             mp[p] = d
     if any(p not in mp for p in params):
         return None
@@ -468,6 +498,11 @@ class ModuleNormalizer:
             hq = f"{self.mod}.{f.id}"
             if hq in self.funcs and self.is_new(hq) and self.funcs[hq][1] is None:
                 return self.funcs[hq][0], None, False
+            if hq not in self.funcs:
+                # a new module-level helper of another module, imported here under its own name
+                cands = [c for c in FOREIGN.get(f.id, []) if c[1] is None and c[2] != self.mod]
+                if len(cands) == 1 and self._imports_name(f.id) and not cands[0][0].decorator_list:
+                    return cands[0][0], None, False
             return None
         if isinstance(f, ast.Attribute) and isinstance(f.value, ast.Name) and cls is not None:
             recv = f.value.id
@@ -486,7 +521,19 @@ class ModuleNormalizer:
                     return h, ast.Name(id=recv if recv != "self" else "self.__class__", ctx=ast.Load()) if recv != "self" else ast.Attribute(value=ast.Name(id="self", ctx=ast.Load()), attr="__class__", ctx=ast.Load()), True
                 if recv in ("self",):
                     return h, ast.Name(id="self", ctx=ast.Load()), True
+            if hq not in self.funcs and recv == "self" and not (f.attr.startswith("__")):
+                # a new method of a base class defined in another module
+                bases = {b.id if isinstance(b, ast.Name) else getattr(b, "attr", None) for b in cls.bases}
+                cands = [c for c in FOREIGN.get(f.attr, []) if c[1] is not None and c[1].name in bases and c[2] != self.mod]
+                if len(cands) == 1 and not cands[0][0].decorator_list:
+                    return cands[0][0], ast.Name(id="self", ctx=ast.Load()), True
         return None
+
+    def _imports_name(self, name: str) -> bool:
+        for s_ in ast.walk(self.tree):
+            if isinstance(s_, ast.ImportFrom) and any((a.asname or a.name) == name and a.name == name for a in s_.names):
+                return True
+        return False
 
     def _inline_calls(self, q: str, node, cls) -> bool:
         changed = False
